@@ -9,12 +9,16 @@ keywords.  `v k` is the numeric value keyword `k` has in the merged parameter se
 Values are `XReal` (a `double` as the front end sees it: a finite rational, NaN or ±inf) and `≤`, `<` below are the IEEE
 comparisons: **NaN lies in no range** (every row mentioning it is false, so `wrong_parameter_error` is expected), `+inf`
 lies only in ranges without an upper bound ("non-positive width", "negative theta" … do not exclude it), `-inf` in none.
-`‹q›` is the finite value `q`.
+`‹q›` is the finite value `q`.  A documented bound that is a quotient (3/N, (N-1)/3) is meant *as the double a user
+obtains by writing it* (`3.0 / N`): `fl q` is the double nearest to the exact rational `q` (IEEE round-to-nearest-even),
+so that the at-bound value `landmark_ratio = 3.0/N` is inside its closed range for every N; likewise the number of
+landmarks is `⌊fl(N · landmark_ratio)⌋`, the double product truncated.
 -/
 namespace TapkeeVerif.C14
 open TapkeeVerif.Gen TapkeeVerif.Front
 
 local notation "‹" q "›" => XReal.fin q
+local notation "fl" => XReal.rne53
 
 /-- the methods that search nearest neighbours -/
 def neighbourMethods : List Meth :=
@@ -36,11 +40,11 @@ def ListedRanges (m : Meth) (n : Nat) (v : Kw → XReal) (speLocal : Bool) : Pro
   (m = .DiffusionMap → ‹0› < v .diffusion_map_timesteps) ∧
   -- positive SPE tolerance and number of updates
   (m = .StochasticProximityEmbedding → ‹0› < v .spe_tolerance ∧ ‹0› < v .spe_num_updates) ∧
-  -- landmark_ratio ∈ [3/N, 1]
-  (m ∈ [Meth.LandmarkIsomap, .LandmarkMultidimensionalScaling] → ‹3 / (n : Rat)› ≤ v .landmark_ratio ∧ v .landmark_ratio ≤ ‹1›) ∧
-  -- perplexity ∈ [0, (N-1)/3], theta ≥ 0
+  -- landmark_ratio ∈ [3/N, 1]  (3/N as a double)
+  (m ∈ [Meth.LandmarkIsomap, .LandmarkMultidimensionalScaling] → ‹fl (3 / (n : Rat))› ≤ v .landmark_ratio ∧ v .landmark_ratio ≤ ‹1›) ∧
+  -- perplexity ∈ [0, (N-1)/3]  ((N-1)/3 as a double), theta ≥ 0
   (m = .tDistributedStochasticNeighborEmbedding →
-      (‹0› ≤ v .sne_perplexity ∧ v .sne_perplexity ≤ ‹((n : Rat) - 1) / 3›) ∧ ‹0› ≤ v .sne_theta) ∧
+      (‹0› ≤ v .sne_perplexity ∧ v .sne_perplexity ≤ ‹fl (((n : Rat) - 1) / 3)›) ∧ ‹0› ≤ v .sne_theta) ∧
   -- FA epsilon ≥ 0
   (m = .FactorAnalysis → ‹0› ≤ v .fa_epsilon) ∧
   -- squishing rate ∈ [0, 1)
@@ -59,7 +63,7 @@ def RankConditions (m : Meth) (n dim : Nat) (v : Kw → XReal) : Prop :=
   -- c5e886d "fix: landmark methods reject a target dimension above the number of landmarks" (validate(): "the
   --          embedding is spanned by eigenvectors of the landmark problem"):  target_dimension ≤ ⌊N · landmark_ratio⌋
   (m ∈ [Meth.LandmarkIsomap, .LandmarkMultidimensionalScaling] →
-      v .target_dimension < XReal.trunc (‹n› * v .landmark_ratio) + ‹1›) ∧
+      v .target_dimension < XReal.trunc (XReal.round (‹n› * v .landmark_ratio)) + ‹1›) ∧
   -- a64904a "fix: PCA, NPE, LLTSA and LPP reject a target dimension above the feature dimension" ("rightCols(
   --          target_dimension) of the D x D eigenvector matrix read out of bounds"), and 1a9ba3c for manifold sculpting;
   --          keywords.hpp, target_dimension: "less than the minimum of the total number of vectors and the current
